@@ -121,7 +121,7 @@ package gostatsd
 //@ pred tagsCopied(t Tags, src Tags) := len(t) == len(src) && (forall i int :: 0 <= i && i < len(src) ==> t[i] == src[i]) && (base(t) == 0 || base(t) != base(src))
 
 //@ func (*MetricMap).receiveCounter
-//@   floats real
+//@   floats ieee
 //@   requires mm != nil && m != nil && wfdCounters(mm.Counters)
 //@   ensures  wfdCounters(mm.Counters) && mm.Counters == old(mm.Counters)
 //@   ensures  hasC(mm, m.Name, tagsKey)
